@@ -1,6 +1,6 @@
 (* MODEL: constenv_model *)
-(* case:  <id> CST <R|N> <F|P> <names> <event>;<event>;...
-     R|N: registers on / off.   F|P: repaired code / pinned code (no constant test on the register paths, containers written in place)
+(* case:  <id> CST <R|N> <F|FL|P> <names> <event>;<event>;...
+     R|N: registers on / off.   F|P: repaired code / pinned code; FL: repaired code, bindings observed after the last event only (no constant test on the register paths, containers written in place)
      names: n1,n2,...  the names whose top-level value is reported after every event
      event ::= <scope>:<attempt>      scope ::= T (top level) | F (inside func(){..}()) | G (two functions deep) | L (inside for 2 {..})
      attempt ::= AS,<name>,<expr>,<0|1 define> | IN,<name>,<delta>,<0|1 prefix> | IX,<name>,<key>,<val> | DE,<name>,<key> | DL,<name>
@@ -137,11 +137,14 @@ let () = iter_lines (fun line ->
   | [id; "CST"; reg; mode; names; evs] ->
     let r = (reg = "R") in
     let cfg = if mode = "P" then pinned_ccfg r else repo_ccfg r in
+    let lazy_obs = (mode = "FL") in   (* FL: the bindings are read once, after the last event only *)
     let names = String.split_on_char ',' names in
     let env = ref [[]] in   (* one empty frame: frame is extracted as its store *)
     let dom = ref false in
     let hdr = "C:" ^ String.concat "," (List.map (fun n -> n ^ "=" ^ (if constant_name (name_of n) then "1" else "0")) names) in
-    let outs = List.map (fun ev ->
+    let evl = String.split_on_char ';' evs in
+    let nev = List.length evl in
+    let outs = List.mapi (fun idx ev ->
       let (e', res) = run_event cfg !env (parse_event ev) in
       env := e';
       let head = (match res with
@@ -154,6 +157,6 @@ let () = iter_lines (fun line ->
         | Some (XCloOuter (_, _, m)) -> "<fn>=>" ^ (match root_value e' m with Some w -> render true w | None -> "?")
         | Some v -> render true v
         | None -> "-")) names in
-      String.concat " " (head :: bs)) (String.split_on_char ';' evs) in
+      if lazy_obs && idx < nev - 1 then head else String.concat " " (head :: bs)) evl in
     if !dom then print_endline (id ^ " SKIP dom") else print_endline (id ^ " " ^ String.concat " | " (hdr :: outs))
   | _ -> ())
